@@ -198,7 +198,7 @@ func TestC04(t *testing.T) {
 	close(jc)
 	wg.Wait()
 	if r.Only < 0 {
-		for i := 0; i < r.N(6, 40); i++ {
+		for i := 0; i < r.N(12, 60); i++ {
 			overlappingSaves(t, r, tmp, i)
 		}
 	}
@@ -414,6 +414,7 @@ func overlappingSaves(t *testing.T, r *evid.Run, tmp string, idx int) {
 		}
 	}
 	kinds := []ops.Kind{ops.Act, ops.Put, ops.DelVer, ops.Act, ops.Delete, ops.Put, ops.Act}
+	var lastRound time.Duration
 	for round := 0; round < 14; round++ {
 		kind := kinds[rng.IntN(len(kinds))]
 		broken := rng.IntN(5) == 0
@@ -449,13 +450,18 @@ func overlappingSaves(t *testing.T, r *evid.Run, tmp string, idx int) {
 		}
 		// "broken": the file system fails for the whole round; "flaky": only for a short window in the middle of
 		// it, so that some of the overlapping calls fail while others, snapshotting at that very moment, succeed
-		flaky := !broken && rng.IntN(4) == 0
+		flaky := !broken && rng.IntN(2) == 0
 		switch {
 		case broken:
 			realdb.BreakDir(path, run)
 		case flaky:
 			done := make(chan struct{})
-			before, length := time.Duration(rng.IntN(600))*time.Microsecond, time.Duration(100+rng.IntN(900))*time.Microsecond
+			// the window is placed relative to how long a round of this size took last time
+			span := lastRound
+			if span < 200*time.Microsecond {
+				span = 200 * time.Microsecond
+			}
+			before, length := time.Duration(rng.Int64N(int64(span))), span/10+time.Duration(rng.Int64N(int64(span/2)))
 			go func() {
 				defer close(done)
 				for t0 := time.Now(); time.Since(t0) < before; {
@@ -469,7 +475,9 @@ func overlappingSaves(t *testing.T, r *evid.Run, tmp string, idx int) {
 			<-done
 			r.Count("overlapping_save_rounds_with_a_flaky_file_system", 1)
 		default:
+			t0 := time.Now()
 			run()
+			lastRound = time.Since(t0)
 		}
 		r.Eval(1)
 		r.Count("overlapping_save_rounds", 1)
